@@ -79,13 +79,14 @@ class Oracle:
         return abs(fd - dval) <= 1e-8 * max(1, abs(dval), abs(fd))
 
 
-def nerr(got, ref, scale):
-    """Normalised error |got - ref| / max(1, |ref|, scale)."""
+def nerr(got, ref, scale, floor=1.0):
+    """Normalised error |got - ref| / max(floor, |ref|, scale).  The floor is 1 for O(1) workloads; the
+    small-magnitude workloads pass the magnitude of their problem instead."""
     got = float(got)
     ref_f = float(ref)
     if not math.isfinite(got):
         return math.inf
-    return abs(got - ref_f) / max(1.0, abs(ref_f), float(scale))
+    return abs(got - ref_f) / max(float(floor), abs(ref_f), float(scale))
 
 
 def usable(ref, scale):
